@@ -19,7 +19,6 @@ import (
 	"github.com/gagliardetto/solana-go"
 	"github.com/ipfs/go-cid"
 	"github.com/multiformats/go-multihash"
-	"github.com/rpcpool/yellowstone-faithful/compactindexsized"
 	legacyindex "github.com/rpcpool/yellowstone-faithful/deprecated/compactindex"
 	"github.com/rpcpool/yellowstone-faithful/indexes"
 	old_faithful_grpc "github.com/rpcpool/yellowstone-faithful/old-faithful-proto/old-faithful-grpc"
@@ -33,10 +32,6 @@ import (
 // (b) absent keys whose 24-bit in-bucket hash equals that of a stored key are CONSTRUCTED with the
 //     index's own hash (domain read from the built file): skipped slots, signatures, CIDs, addresses;
 // (c) slots of an epoch that is not loaded. One epoch loaded and two epochs loaded.
-
-func c03Hash24(domain uint32, key []byte) uint64 {
-	return compactindexsized.EntryHash64(domain, key) & 0xffffff
-}
 
 // c03SlotPairs finds (stored, absent) slot-offset pairs of one epoch that collide under domain.
 func c03SlotPairs(epoch uint64, domain uint32, want int) [][2]int {
@@ -58,62 +53,6 @@ func c03SlotPairs(epoch uint64, domain uint32, want int) [][2]int {
 		first[h] = off
 	}
 	return pairs
-}
-
-func c03OpenBucketDomain(path string, key []byte) (uint32, *compactindexsized.DB, *os.File, error) {
-	f, err := os.Open(path)
-	if err != nil {
-		return 0, nil, nil, err
-	}
-	db, err := compactindexsized.Open(f)
-	if err != nil {
-		f.Close()
-		return 0, nil, nil, err
-	}
-	b, err := db.LookupBucket(key)
-	if err != nil {
-		f.Close()
-		return 0, nil, nil, err
-	}
-	return b.HashDomain, db, f, nil
-}
-
-// c03FindCollider brute-forces a candidate key (gen(i)) whose bucket and 24-bit hash equal those of a stored key.
-func c03FindCollider(db *compactindexsized.DB, stored [][]byte, gen func(i uint64) []byte, start uint64, maxTries uint64) (cand []byte, victim []byte, tries uint64) {
-	type hk struct {
-		bucket uint
-		h      uint64
-	}
-	storedSet := map[string]bool{}
-	hashes := map[hk][]byte{}
-	doms := map[uint]uint32{}
-	for _, k := range stored {
-		storedSet[string(k)] = true
-		bi := db.Header.BucketHash(k)
-		if _, ok := doms[bi]; !ok {
-			b, err := db.GetBucket(bi)
-			if err != nil {
-				continue
-			}
-			doms[bi] = b.HashDomain
-		}
-		hashes[hk{bi, c03Hash24(doms[bi], k)}] = k
-	}
-	for i := start; i < start+maxTries; i++ {
-		k := gen(i)
-		if storedSet[string(k)] {
-			continue
-		}
-		bi := db.Header.BucketHash(k)
-		d, ok := doms[bi] // most candidates fall into a bucket without a stored key: skipped cheaply
-		if !ok {
-			continue
-		}
-		if v, ok := hashes[hk{bi, c03Hash24(d, k)}]; ok {
-			return k, v, i - start + 1
-		}
-	}
-	return nil, nil, maxTries
 }
 
 // c03FindLegacyCollider: like c03FindCollider for the deprecated index format (bucket and in-bucket hash
@@ -167,11 +106,6 @@ func c03GenCid(i uint64) []byte {
 	return c.Bytes()
 }
 
-func c03GenAddr(i uint64) []byte {
-	h := sha512.Sum512([]byte(fmt.Sprintf("c03-absent-address-%d", i)))
-	return h[:32]
-}
-
 type c03World struct {
 	R     *vkit.Report
 	label string
@@ -186,7 +120,7 @@ func TestVerif_C03(t *testing.T) {
 	defer R.Finish()
 	base := vkBase("c03")
 	defer os.RemoveAll(base)
-	R.Rule = "absent keys: (a) every skipped slot of the generated epoch (432 000-slot range, sharded), (b) constructed colliders = absent slots / signatures / CIDs / addresses whose bucket and 24-bit in-bucket hash equal those of a stored key (slot pairs computed over the whole epoch with the index's hash domain, the others by brute force over hashed candidates), (c) slots of an epoch that is not loaded; each through JSON-RPC and gRPC with one and with two epochs loaded; oracle = not-found / epoch-not-available / empty list / error, never an object of another key; non-trivial = constructed collider"
+	R.Rule = "absent keys: (a) every skipped slot of the generated epoch (432 000-slot range, sharded), (b) constructed colliders = absent slots / signatures / CIDs / addresses whose bucket and 24-bit in-bucket hash equal those of a stored key (slot pairs computed over the whole epoch with the index's hash domain, the others by brute force over hashed candidates; colliding addresses for both kinds of stored address: newest transaction verifiable, and newest transaction a v0 transaction with a table lookup archived without metadata), (c) slots of an epoch that is not loaded; each through JSON-RPC and gRPC with one and with two epochs loaded; oracle = not-found / epoch-not-available / empty list / error, never an object of another key; non-trivial = constructed collider"
 	nPairs, nOther := 6, 3
 	if vkit.Thorough() {
 		nPairs, nOther = 24, 10
@@ -204,6 +138,10 @@ func TestVerif_C03(t *testing.T) {
 			sh.Blocks = append(sh.Blocks, cargen.BlockShape{SlotOffset: p[0], Blocktime: int64(1_660_000_000 + i),
 				Entries: [][]cargen.TxShape{{{Accounts: []int{i % 4}}, {Accounts: []int{(i + 1) % 4, 5}, Loaded: []int{6}}}}})
 		}
+		// last block: a v0 transaction with an address-table lookup archived WITHOUT metadata (its loaded addresses
+		// are unknown) that mentions accounts 0..3: the newest entry of their address lists cannot be verified
+		sh.Blocks = append(sh.Blocks, cargen.BlockShape{SlotOffset: pairs[len(pairs)-1][0] + 1, Blocktime: 1_660_000_999,
+			Entries: [][]cargen.TxShape{{{Accounts: []int{0, 1, 2, 3}, Loaded: []int{6}, NoMeta: true}}}})
 		os.RemoveAll(filepath.Join(base, "A"))
 		e, err := vkBuildEpoch(filepath.Join(base, "A"), sh, true)
 		if err != nil {
@@ -303,14 +241,21 @@ func TestVerif_C03(t *testing.T) {
 			f.Close()
 		}
 	}
+	// per victim class: addresses whose newest transaction is the unverifiable one of the last block (accounts
+	// 0..3), and all the others
 	nAddr := 1
 	if vkit.Thorough() {
 		nAddr = 3
 	}
 	if task(3) {
 		seen := map[solana.PublicKey]bool{}
-		var keys [][]byte
-		for _, tx := range eA.Truth.Txs {
+		var keys, keysUnverifiable [][]byte
+		for i := 0; i < 4; i++ {
+			a := cargen.Account(i)
+			seen[a] = true
+			keysUnverifiable = append(keysUnverifiable, append([]byte{}, a[:]...))
+		}
+		for _, tx := range eA.Truth.Txs[:len(eA.Truth.Txs)-1] {
 			for _, a := range tx.Accounts {
 				if !seen[a] {
 					seen[a] = true
@@ -321,14 +266,16 @@ func TestVerif_C03(t *testing.T) {
 		pkIdx := filepath.Join(eA.GsfaDir, string(indexes.Kind_PubkeyToOffsetAndSize)+".index")
 		_, db, f, err := c03OpenBucketDomain(pkIdx, keys[0])
 		if err == nil {
-			start := seed
-			for len(addrColliders) < nAddr {
-				cand, _, tries := c03FindCollider(db, keys, c03GenAddr, start, 1_500_000_000)
-				start += tries
-				if cand == nil {
-					break
+			for _, victims := range [][][]byte{keys, keysUnverifiable} {
+				start := seed
+				for n := 0; n < nAddr; n++ {
+					cand, _, tries := c03FindCollider(db, victims, c03GenAddr, start, 1_500_000_000)
+					start += tries
+					if cand == nil {
+						break
+					}
+					addrColliders = append(addrColliders, solana.PublicKeyFromBytes(cand))
 				}
-				addrColliders = append(addrColliders, solana.PublicKeyFromBytes(cand))
 			}
 			f.Close()
 		} else {
